@@ -5,6 +5,9 @@ def run(ctx):
     fams = ["OO", "OI", "IO"] if ctx.tier == "quick" else ["OO", "OI", "IO", "OL", "LO", "OU", "OQ", "UO", "QO"]
     res = ctx.cvc(fams, ["T-REF"])
     ctx.cvc(["II", "OO"] if ctx.tier == "quick" else ["II", "OO", "LF", "fs", "QQ"], ["M-IDX"])
+    res2 = ctx.cvc(["II", "OO", "fs"] if ctx.tier == "quick" else ["II", "OO", "fs", "LF", "QQ", "IO", "OI"], ["M-NULL"])
+    from lib import replay
+    replay.replay_mnull(ctx, res2)
     from cvc import tref
     ctx.notes.append("functions NOT under the T-REF contract (slot-level ownership, bounded only): " + ", ".join(tref.OUTSIDE))
     ctx.standin("refcount_rt", families=("OO", "OI", "IO") if ctx.tier == "quick" else ("OO", "OI", "IO", "OL", "LO"))
@@ -17,5 +20,8 @@ def run(ctx):
         "(needs separation logic, DESIGN.md section 10): bounded stand-in refcount_rt (per-call refcount equation on "
         "every tracked key/value over histories incl. error paths, set algebra, merges, pickling, eviction). "
         "M-IDX (see C15) is run here too: the lazy sequences and iterators read a leaf only inside its CURRENT length "
-        "(slots beyond it hold released references), for all cursor states."
+        "(slots beyond it hold released references), for all cursor states. M-NULL, on every function that calls a fallible "
+        "constructor of the CPython API: its result is known non-NULL wherever it is dereferenced (->field, Py_INCREF / Py_DECREF, "
+        "Py_TYPE, PyTuple_GET_ITEM) or stored into a tuple / list slot - found and fixed: update() released a NULL iterator "
+        "(069bdf6: OOBucket().update(X()) with X.items() returning 5 was a segmentation fault), BTree_getstate stored a NULL (5b9672e)."
         % (", ".join(fams), len(tref.OUTSIDE)))
